@@ -158,7 +158,7 @@ def abi_corr(which):
             sel = cases      # decode cases, plus round trip on what the implementation encoded
         # shard
         shards = max(1, -(-len(sel) // 250))       # at most 250 cases per file: a coqc evaluating thousands of payload terms needs many GB
-        wd = os.path.join(ctx.BUILD, 'cases', cid)
+        wd = os.path.join(ctx.BUILD, 'cases', '%s-%s-%d' % (cid, tier, os.getpid()))     # private to this run: concurrent checks of one property must not share files
         os.makedirs(wd, exist_ok=True)
         for f in os.listdir(wd):
             os.remove(os.path.join(wd, f))
@@ -173,6 +173,7 @@ def abi_corr(which):
                 fh.write('Eval vm_compute in results.\n')
             files.append(f)
         outs = ctx.coq_eval_files(files)
+        import shutil; shutil.rmtree(wd, ignore_errors=True)
         monitor_failures, corr_mismatches = [], []
         for i, f in enumerate(files):
             rc, out = outs[f]
@@ -253,7 +254,7 @@ def trace_corr(mode, module, ntraces, relevant, rule, nontrivial, corpus_dir=Non
         if hasattr(mod, 'prepare'):
             traces = [mod.prepare(t) for t in traces]
         shards = max(1, min(ctx.NPROC, len(traces)), -(-len(traces) // 60))   # at most 60 traces per file (memory)
-        wd = os.path.join(ctx.BUILD, 'cases', cid)
+        wd = os.path.join(ctx.BUILD, 'cases', '%s-%s-%d' % (cid, tier, os.getpid()))     # private to this run: concurrent checks of one property must not share files
         os.makedirs(wd, exist_ok=True)
         for f in os.listdir(wd):
             os.remove(os.path.join(wd, f))
@@ -264,6 +265,7 @@ def trace_corr(mode, module, ntraces, relevant, rule, nontrivial, corpus_dir=Non
             mod.write_case_file(f, part)
             files.append(f)
         outs = ctx.coq_eval_files(files)
+        import shutil; shutil.rmtree(wd, ignore_errors=True)
         monitor_failures, corr_mismatches, warnings = [], [], []
         nsteps = 0
         dist = collections.Counter()
